@@ -160,6 +160,47 @@ func emitterFor(kind string) (*schema.Emitter, *schema.Ty, func(jwt.Claims) refl
 	return em, t, func(c jwt.Claims) reflect.Value { return reflect.ValueOf(c).Elem() }
 }
 
+// entries planted into free-form generic data under the names the decoder's kind / version probe reads
+var reservedPlants = []struct {
+	key string
+	val interface{}
+}{{"type", 5.0}, {"type", "user"}, {"type", "my_kind"}, {"tags", "x"}, {"tags", []interface{}{"a", "b"}}, {"tags", []interface{}{1.0}},
+	{"version", "a"}, {"version", 7.0}, {"Type", true}, {"type", nil}, {"type", "cluster"}, {"type", "account"}, {"TAGS", map[string]interface{}{"a": 1.0}},
+	{"type", "generic"}, {"tags", nil}, {"tags", []interface{}{}}}
+
+// reservedBreaks: is this the shape recorded as finding K4 (a "type" that is not a string or names a kind with a
+// loader of its own or a retired kind; "tags" that is not a list of strings)?  Names match as encoding/json matches them.
+func reservedBreaks(v interface{}, key string) bool {
+	switch strings.ToLower(key) {
+	case "type":
+		switch x := v.(type) {
+		case nil:
+			return false
+		case string:
+			switch x {
+			case "operator", "account", "user", "activation", "authorization_request", "authorization_response", "cluster", "server":
+				return true
+			}
+			return false
+		}
+		return true
+	case "tags":
+		switch x := v.(type) {
+		case nil:
+			return false
+		case []interface{}:
+			for _, e := range x {
+				if _, ok := e.(string); !ok && e != nil {
+					return true
+				}
+			}
+			return false
+		}
+		return true
+	}
+	return false
+}
+
 // features of a claims object that select known findings (narrow matchers in props.py)
 func claimFeatures(cl jwt.Claims) map[string]interface{} {
 	f := map[string]interface{}{}
@@ -242,6 +283,13 @@ func runC03(c *Ctx) {
 		for i := 0; i < perKindSpec; i++ {
 			g.fill = []int{15, 50, 90}[i%3]
 			cl, s := g.newClaims(kind)
+			reserved := ""
+			if gc, ok := cl.(*jwt.GenericClaims); ok && gc.Data != nil && i%4 == 3 {
+				// free-form data that uses the names the decoder's kind/version probe reads ("type", "tags", "version")
+				pl := reservedPlants[(i/4)%len(reservedPlants)]
+				gc.Data[pl.key] = pl.val
+				reserved = pl.key
+			}
 			tok, err := cl.Encode(s.kp)
 			c.sum.Evaluations++
 			if err != nil {
@@ -257,14 +305,28 @@ func runC03(c *Ctx) {
 			inp := map[string]interface{}{"kind": kind, "signer_role": s.role, "token": tok, "features": feat}
 			d, err := jwt.Decode(tok)
 			c.sum.ImplChecks++
-			if err != nil {
-				inp["error"] = err.Error()
-				c.violation("C03: Decode refuses a token the library's own Encode produced", inp)
-				continue
-			}
-			if dynKind(d) != kind {
-				inp["decoded_kind"] = dynKind(d)
-				c.violation("C03: Decode returns claims of another kind than encoded", inp)
+			if err != nil || dynKind(d) != kind {
+				if err != nil {
+					inp["error"] = err.Error()
+				} else {
+					inp["decoded_kind"] = dynKind(d)
+				}
+				if gc, ok := cl.(*jwt.GenericClaims); ok && reserved != "" && reservedBreaks(gc.Data[reserved], reserved) {
+					// the recorded finding K4, and nothing else: without the planted entry the same claims round-trip
+					delete(gc.Data, reserved)
+					if t2, e2 := gc.Encode(s.kp); e2 == nil {
+						if d2, e3 := jwt.Decode(t2); e3 == nil && dynKind(d2) == kind && canonString(elem(d2)) == canonString(elem(gc)) {
+							inp["known"], inp["reserved_name"] = []string{"K4"}, reserved
+							c.violation("C03 known: K4", inp)
+							continue
+						}
+					}
+				}
+				if err != nil {
+					c.violation("C03: Decode refuses a token the library's own Encode produced", inp)
+				} else {
+					c.violation("C03: Decode returns claims of another kind than encoded", inp)
+				}
 				continue
 			}
 			want := canonString(elem(cl))
